@@ -709,7 +709,7 @@ fn run_scenario(out: &mut impl Write, id: &str, crc: &str, retries: &str, be: Ba
         if is_sim {
             if let Backend::Sim(c) = &mut bus.borrow_mut().be {
                 c.dirty.clear();
-                if p[0] == "r" {
+                if p[0] == "r" || p[0] == "rd" {
                     let n: u64 = p[1].parse().unwrap();
                     let idx: u64 = p[2].parse().unwrap();
                     let mut all = vec![];
@@ -726,10 +726,19 @@ fn run_scenario(out: &mut impl Write, id: &str, crc: &str, retries: &str, be: Ba
             HashMap::new()
         };
         let res: Result<Result<String, String>, ()> = catch_unwind(AssertUnwindSafe(|| match p[0] {
-            "r" => {
+            "r" | "rd" => {
                 let n: usize = p[1].parse().unwrap();
                 let idx: u32 = p[2].parse().unwrap();
                 let mut blocks = vec![Block::new(); n];
+                if p[0] == "rd" {
+                    // a reused buffer: previous contents happen to be stop-transmission frames
+                    // (the driver must clock out 0xFF during the data phase whatever the buffer held)
+                    for b in blocks.iter_mut() {
+                        for (i, x) in b.contents.iter_mut().enumerate() {
+                            *x = [0x4C, 0, 0, 0, 0, 0x61][i % 6];
+                        }
+                    }
+                }
                 card.read(&mut blocks, BlockIdx(idx)).map(|_| {
                     let all: Vec<u8> = blocks.iter().flat_map(|b| b.contents.iter().cloned()).collect();
                     format!("blocks {} {}", n, digest(&all))
